@@ -23,7 +23,11 @@ EXTENDS Integers, Sequences, FiniteSets, TLC
 (* is judged against the datatype with the configured overrides applied.                          *)
 (* z : declared with constant=3 in the class.  A constant (class level or configured) IS the value  *)
 (* of the parameter: the cache holds it from the start, it is never written to the hardware.         *)
-Params == {"a", "b", "n", "s", "l", "k", "z"}
+(* oi / oc : parameter / command declared optional=True in the base class and IMPLEMENTED by the       *)
+(* configured class: configured like any other.  ou / od : declared optional in the base class and NOT  *)
+(* implemented: they do not exist on the module, an entry naming them is an unknown name.               *)
+Params == {"a", "b", "n", "s", "l", "k", "z", "oi"}
+OptUnimplemented == {"ou", "od"}
 ClassConst == [z |-> [ty |-> "float", n |-> 6]]
 PInfo == [a |-> [ty |-> "float", lo |-> 0, hi |-> 200, write |-> TRUE,  needscfg |-> FALSE],
           b |-> [ty |-> "int",   lo |-> 0, hi |-> 20,  write |-> FALSE, needscfg |-> FALSE],
@@ -31,7 +35,8 @@ PInfo == [a |-> [ty |-> "float", lo |-> 0, hi |-> 200, write |-> TRUE,  needscfg
           s |-> [ty |-> "str",   lo |-> 0, hi |-> 16,  write |-> TRUE,  needscfg |-> FALSE],
           l |-> [ty |-> "tuple", lo |-> 0, hi |-> 6,   write |-> FALSE, needscfg |-> FALSE],
           k |-> [ty |-> "bytes", lo |-> 0, hi |-> 8,   write |-> FALSE, needscfg |-> FALSE],
-          z |-> [ty |-> "float", lo |-> 0, hi |-> 200, write |-> FALSE, needscfg |-> FALSE]]
+          z |-> [ty |-> "float", lo |-> 0, hi |-> 200, write |-> FALSE, needscfg |-> FALSE],
+          oi |-> [ty |-> "float", lo |-> 0, hi |-> 200, write |-> TRUE, needscfg |-> FALSE]]
 LimTy(p) == IF PInfo[p].ty \in {"float", "int"} THEN PInfo[p].ty ELSE "int"     \* type of the limits of p
 ModProps == {"mp", "op", "export"}         \* export = FALSE: the module and all its parameters are hidden
 MInfo == [mp |-> [ty |-> "int",   lo |-> 0, hi |-> 10, mandatory |-> TRUE],
@@ -40,7 +45,7 @@ MInfo == [mp |-> [ty |-> "int",   lo |-> 0, hi |-> 10, mandatory |-> TRUE],
 MainPar == "value"                         \* the main value: its (configurable) unit is the module's main unit,
 ClassMainUnit == 2                         \* ('K')  which replaces '$' in the units of the other parameters
 DollarParams == {"n"}                      \* parameters declared with unit '$'
-Commands == {"c"}
+Commands == {"c", "oc"}
 LimitPairs == {"a_limits"}                 \* a Limit() parameter: value is a pair (low, high)
 LimBase == [a_limits |-> "a"]              \* ... limiting this parameter
 DtProps(ty) == IF ty = "float" THEN {"min", "max", "unit"} ELSE {"min", "max"}   \* datatype properties
@@ -75,7 +80,8 @@ ValHi(cfg, p) == IF HasPair(cfg, p) THEN MinOf(EffHi(cfg, p), PairOf(cfg, p).m) 
 RangeClass(lo, hi, n) == IF n < lo \/ n > hi THEN "outside" ELSE IF n = lo \/ n = hi THEN "atlimit" ELSE "inside"
 
 EntryClass(cfg, e) ==
-  IF e.par \in Params THEN
+  IF e.par \in OptUnimplemented THEN "unknownname"       \* whatever the entry contains
+  ELSE IF e.par \in Params THEN
      LET info == PInfo[e.par] IN
      CASE e.prop = "value" -> IF ~ConvOK(info.ty, e.v) THEN "wrongtype"
                               ELSE RangeClass(ValLo(cfg, e.par), ValHi(cfg, e.par), e.v.n)
